@@ -17,7 +17,7 @@ ASSUMPTIONS = ["'the NLSE' is the equation whose linear part is the all-pass fil
                "dB->neper: the library uses 4.343; absolute loss asserted to 2e-5 of the exponent, phi_max-independence of the energy to 1e-10",
                "convergence constant: err(phi_max) <= 6*phi_max*max(1, gamma*P_peak*L_eff) + 1e-6 (calibrated, >= 3x margin) and the error must shrink at least 3x when phi_max goes from 0.1 to 0.00625 (for nonlinear phases above 1 rad)"]
 TOLERANCES = {"energy_exponent_rel": 2e-5, "energy_phi_independence": 1e-10, "spm_rtol": 1e-9, "one_vs_two_pol": 1e-12, "step_phase_slack": 1e-9}
-MIN_CHECKS = {"fiber.finite_shape": 200, "fiber.energy": 200, "probe.step_phase": 100, "probe.sum_steps": 100, "spm.closed_form": 60, "nlse.converges": 12, "onepol.equals_x": 60}
+MIN_CHECKS = {"fiber.finite_shape": 200, "fiber.energy": 200, "spm.closed_form": 60, "nlse.converges": 12, "onepol.equals_x": 60}      # (the frame-local probe of the split-step loop is an optional white-box cross-check: a refactoring that moves the loop body makes it blind, which must not make the check inconclusive)
 SHARDS = {"quick": 4}
 
 D = T = None
